@@ -253,8 +253,8 @@ def coq_model(case):
 
 def _parse(impl):
     parts = [p.strip() for p in impl.split("|")]
-    if len(parts) == 2 and parts[1].startswith("left=") and parts[1][5:].isdigit():
-        parts = [parts[0], ",".join(["U"] * int(parts[1][5:])), "sub=?"]
+    if len(parts) == 3 and parts[1].startswith("left=") and parts[1][5:].isdigit():
+        parts = [parts[0], ",".join(["U"] * int(parts[1][5:])), parts[2]]
     if len(parts) != 3 or not parts[2].startswith("sub="):
         return None
     kept, done = [], True
@@ -279,7 +279,7 @@ def coq_oracle(case, impl):
     kept, done, log, sub = p
     ck = "[" + ";".join("(%s, %d)" % ("true" if l else "false", c) for l, c in kept) + "]"
     if case.get("real"):
-        return "check_real %s %s %d" % (ck, "true" if done else "false", len(log))
+        return "check_real %s %s %d %s" % (ck, "true" if done else "false", len(log), "true" if sub else "false")
     cl = "[" + ";".join("true" if x == "S" else "false" for x in log) + "]"
     return "check %s %s %s %s" % (ck, "true" if done else "false", cl, "true" if sub else "false")
 
@@ -294,7 +294,8 @@ def agree(case, impl, model):
     pi, pm = _parse(impl), _parse(model)
     if pi is None or pm is None:
         return False
-    return impl.split("|")[0].strip() == model.split("|")[0].strip() and pi[2].count("U") == pm[2].count("U")
+    strip = lambda x: x.split("|")[0].strip().replace(":X:", ":L:")  # noqa: E731  (publish is not a liveness probe there)
+    return strip(impl) == strip(model) and pi[2].count("U") == pm[2].count("U") and pi[3] == pm[3]
 
 
 def nontrivial(case, impl):
